@@ -263,6 +263,20 @@ fn main() {
     println(a, c);
 }
 `},
+	// a failure while serialising an object with SEVERAL offending fields: which one the message names must not vary
+	"json-failure-over-many-fields": {"main": `fn main() {
+    let o = new { a: 1..3, b: fn() -> int { 1 }, c: ((0.0 - 1.0) ** 0.5), d: println, e: 2..4, f: fn(x: int) -> int { x }, g: 1, h: "s" };
+    println("before");
+    println(o.to_json());
+}
+`},
+	"json-failure-over-many-keys": {"main": `fn main() {
+    let p = new { ? };
+    p.set("r", 0..1); p.set("n", ((0.0 - 1.0) ** 0.5)); p.set("s", fn() -> int { 1 }); p.set("t", 5..6); p.set("u", debug); p.set("ok", 1);
+    println("before");
+    println(p.to_json_indent());
+}
+`},
 	// function literals in several modules, printed: what a function value displays must not depend on the order
 	// in which the compiler happens to visit the modules
 	"lambda-display": {"main": `import { fa, ga } from a;
